@@ -198,6 +198,12 @@ def run_variant(spec, var, budget=20000):
                 del t.raw[:]
                 h.next_rtc()
                 out["steps"].append(observe("next_rtc", prev))
+            if queued and var.get("clear_after") == len(out["steps"]) - 1 and getattr(h, "instrumented", False):
+                # the user wipes both logs between two steps: what follows starts from empty logs
+                h.clear_spy()
+                h.clear_trace()
+                out["steps"][-1]["cleared_after"] = True
+                seen_trace[:] = []
         if queued and var.get("drive") == "queue":
             n = 0
             while len(h.queue) and n < 12:      # events the handlers posted to themselves
@@ -278,6 +284,8 @@ def check_spy(spec, var, run, rings=None):
                             k, o["kind"], i, got, want, o["spy_rtc"], exp_step)))
             return out
         concat += full_part
+        if o.get("cleared_after"):
+            concat = []
     want_full = concat[-spy_size:]
     if run.get("spy_full") != want_full:
         out.append(("full-spy", "full spy %r is not the concatenation of the step logs %r" % (run.get("spy_full"), want_full)))
@@ -321,6 +329,8 @@ def check_trace(spec, var, run, rings=None):
         if any(d is None for (d, _, _, _) in o["trace_new"]):
             out.append(("trace/no-timestamp", "step %d: record without a timestamp %r" % (k, o["trace_new"])))
         allrecs += want
+        if o.get("cleared_after"):
+            allrecs = []
     size = rings[1] if rings else 500
     gotfull = [(a, s, b) for (_, a, s, b) in run.get("trace_full", [])]
     if gotfull != allrecs[-size:]:
